@@ -203,13 +203,19 @@ func (w *World) BuildMsg(signer int, m Msg) (sdk.Msg, error) {
 			e := authz.NewMsgExec(sa.Addr, inner)
 			return &e, nil
 		case "GROUPPROP":
-			p := &group.MsgSubmitProposal{GroupPolicyAddress: authtypes.NewModuleAddress("nopolicy").String(), Proposers: []string{sender}, Exec: group.Exec_EXEC_TRY, Title: "t", Summary: "s"}
+			// both execution modes occur (the wrapper is a wrapper either way): try-at-once for an odd number of inner
+			// messages, submit-only for an even one
+			ex := group.Exec_EXEC_TRY
+			if len(inner)%2 == 0 {
+				ex = group.Exec_EXEC_UNSPECIFIED
+			}
+			p := &group.MsgSubmitProposal{GroupPolicyAddress: authtypes.NewModuleAddress("nopolicy").String(), Proposers: []string{sender}, Exec: ex, Title: "t", Summary: "s"}
 			if err := p.SetMsgs(inner); err != nil {
 				return nil, err
 			}
 			return p, nil
 		default:
-			return govv1.NewMsgSubmitProposal(inner, sdk.NewCoins(sdk.NewCoin(BondDenom, sdkmath.NewInt(1))), sender, "", "t", "s", false)
+			return govv1.NewMsgSubmitProposal(inner, sdk.NewCoins(sdk.NewCoin(BondDenom, sdkmath.NewInt(1))), sender, "", "t", "s", len(inner)%2 == 0)
 		}
 	}
 	return nil, fmt.Errorf("unknown msg kind %s", m.Kind)
